@@ -97,7 +97,15 @@ def regenerate_guards(pid):
         sold = st.read_text() if st.exists() else ""
         if stext != sold: st.write_text(stext)
         info["sites"].append("data/builder.py:DatasetBuilder.add_scalar_attribute (value placement) → scalarPlaceT")
-        return "ok", "regenerated" if (text != old or stext != sold) else "unchanged", info
+        # …and the identifier bookkeeping of add_entities (translate/py2lean_ent.py)
+        import py2lean_ent
+        et = LEAN_DIR / "LK" / "Generated" / "EntC17.lean"
+        try: etext = py2lean_ent.translate(os.path.dirname(lenskit.__file__))
+        except py2lean_ent.Unsupported as e: return "untranslatable", f"add_entities: {e}", info
+        eold = et.read_text() if et.exists() else ""
+        if etext != eold: et.write_text(etext)
+        info["sites"].append("data/builder.py:DatasetBuilder.add_entities (identifier table and index) → addEntitiesT")
+        return "ok", "regenerated" if (text != old or stext != sold or etext != eold) else "unchanged", info
     if pid == "C04":
         import py2lean_scatter
         info = {"module": "LK.Gen.ScatterC04", "obligations": "LK/Proofs/ScatterC04.lean", "sites": [f"{rel}:{cls}.__call__ → {nm}" for rel, cls, nm, *_ in py2lean_scatter.SCORERS]}
@@ -301,7 +309,7 @@ def main():
         if status in ("untranslatable", "obligation-broken"):
             sys.exit(search_chunking(a.pid, f"{status}: {msg}"))
         if status == "build-error":
-            if ginfo is not None and any(f"{k}{a.pid}" in msg for k in ("Guards", "Wiring", "Scatter", "Np", "Imp", "Holdout", "Arrow", "Cand", "SaveTrace", "BatchTrace", "Neg", "Als", "Agg", "Rank", "RowPtrs", "Sim", "Split", "Coll", "Build")):
+            if ginfo is not None and any(f"{k}{a.pid}" in msg for k in ("Guards", "Wiring", "Scatter", "Np", "Imp", "Holdout", "Arrow", "Cand", "SaveTrace", "BatchTrace", "Neg", "Als", "Agg", "Rank", "RowPtrs", "Sim", "Split", "Coll", "Build", "Ent")):
                 sys.exit(obligation_broken(a.pid, "obligation-broken: " + msg.replace("\n", " | ")[:900], mod, a.tier, seed, a.replay, ginfo))
             print(f"machinery error: lake build failed\n{msg}", file=sys.stderr); sys.exit(2)
     else:
@@ -309,7 +317,7 @@ def main():
         r = subprocess.run(["lake", "build", f"LK.Props.{a.pid}", "lkdriver"], cwd=LEAN_DIR, capture_output=True, text=True, timeout=1800)
         if r.returncode != 0:
             bad = [l for l in (r.stdout + r.stderr).splitlines() if "error" in l][:8]
-            if ginfo is not None and any(any(f"{k}{a.pid}" in l for k in ("Guards", "Wiring", "Scatter", "Np", "Imp", "Holdout", "Arrow", "Cand", "SaveTrace", "BatchTrace", "Neg", "Als", "Agg", "Rank", "RowPtrs", "Sim", "Split", "Coll", "Build")) for l in bad):
+            if ginfo is not None and any(any(f"{k}{a.pid}" in l for k in ("Guards", "Wiring", "Scatter", "Np", "Imp", "Holdout", "Arrow", "Cand", "SaveTrace", "BatchTrace", "Neg", "Als", "Agg", "Rank", "RowPtrs", "Sim", "Split", "Coll", "Build", "Ent")) for l in bad):
                 sys.exit(obligation_broken(a.pid, "obligation-broken: " + " | ".join(bad)[:900], mod, a.tier, seed, a.replay, ginfo))
             print("machinery error: lake build failed\n" + "\n".join(bad[:6]), file=sys.stderr); sys.exit(2)
     try:
